@@ -259,6 +259,9 @@ def _run(ctx, case, net):
                             tuple(sorted(level_of[a] for a in case["relay"])), bool(case["mc_off"]),
                             case["profiles"][str(src)]["spi_overhead"]))
     ctx.count("multicasts_judged", len(net.results))
+    ctx.distinct("air_order_digests", net.air_digest())
+    for st in net.radio_states():
+        ctx.distinct("radio_states", st)
     ctx.sample({"nodes": [oct(a) for a in nodes], "relay": [oct(a) for a in case["relay"]],
                 "mc_off": [oct(a) for a in case["mc_off"]], "multicasts": len(net.results),
                 "air_packets": len(net.air.log), "first": case["msgs"][:2]})
